@@ -883,6 +883,15 @@ def corpus_cases(pid):
                           dict(T("call", 12, 2, to=100, plen=0, amount="1"), vm={"res": "ok", "fee": "0", "transfers": [], "writes": [[3, 1]]})]}],
              "feecheck", version=ver, fund=[["10", str(30000 * AERGO)], ["12", str(3 * 10 ** 16)]], cids={"100": [10, 1]},
              ids=[1, 2, 3, 10, 11, 12, 30, 100], ckeys=[[100, 1], [100, 2], [100, 3]])
+    # MULTICALL (implementation only): success with fee, with a transfer to a third account, runtime error, and
+    # from an account that cannot pay
+    for ver, zf in ((4, False), (2, False), (0, False), (4, True)):
+        case("exec", [{"no": 5, "validator": False, "txs": [
+            dict(T("multicall", 10, 1, plen=5), vm={"res": "ok", "fee": str(10 ** 15), "transfers": [], "writes": []}),
+            dict(T("multicall", 10, 2, plen=300), vm={"res": "ok", "fee": str(2 * 10 ** 15), "transfers": [["11", str(AERGO)]], "writes": []}),
+            dict(T("multicall", 11, 1, plen=5), vm={"res": "rt", "fee": str(10 ** 15), "transfers": [], "writes": []}),
+            dict(T("multicall", 12, 1, plen=5, gaslimit=200000), vm={"res": "ok", "fee": str(100 * AERGO), "transfers": [], "writes": []}),
+            T("transfer", 10, 3, to=12, amount="5")]}], "multicall", version=ver, zerofee=zf)
     # resetAccount must work on a FRESH copy of the old state: the sender already wrote its account earlier in
     # the block; a FEEDELEGATION call with an amount fails at run time with a fee larger than the contract's
     # balance -> sender reset is written, receiver reset fails -> the tx is REJECTED and the rollback must
@@ -1012,7 +1021,7 @@ def run_check(ctx, pid):
         cases.append(c)
     obs = run_engine(ctx, binp, cases, "cases")
     fill_enterprise_oracle(cases, obs)
-    modelled = [c for c in cases if c.get("tag") not in ("nomodel", "foreignchain")]
+    modelled = [c for c in cases if c.get("tag") not in ("nomodel", "foreignchain", "multicall")]
     plain = [c for c in cases if c.get("tag") != "f23"]
     mod = eval_model(ctx, modelled, obs, fixed, "m")
     bad = [c for c in modelled if not compare_chk(go_vectors(c, obs[c["id"]]), mod[c["id"]])]
